@@ -209,11 +209,14 @@ PROPS["C12"] = dict(
 
 PROPS["C16"] = dict(
     level="proof",
-    verus=["c16_labels", "c16_resources"],
+    verus=["c16_labels", "c16_resources", "c16_store"],
     labels=["C16.", "C18.resources."],
     kani=[],
     trusted=["memchr/memrchr (shims)", "seahash uninterpreted",
-             "HostnameRuleDb::store_rule / add_generic_filter (which bin a rule is stored in, negated locations, hidden generic rules), the generichide lookup in engine.rs / blocker.rs: NOT under contract",
+             "the generichide lookup in engine.rs / blocker.rs and the parse of the location list (CosmeticFilter::parse) are NOT under contract; add_generic_filter is under contract in unit c17_generic (uninterpreted relation here)",
+             "R7 lift in HostnameFilterBin::insert: `if let Some(b) = map.get_mut(k) { b.push(v) } else { map.insert(*k, vec![v]) }` = append under the key (HashMap::get_mut has no vstd specification)",
+             "R5/R6 lifts in store_rule: Option<&str>::map(to_string), serde_json::to_string of the procedural filter (an uninterpreted function of operator list and action), iter::empty().chain(a).chain(b) = concatenation; derived Clone = structural copy",
+             "a rule has at least one selector operator (precondition of plain_css_selector's assert!, established by CosmeticFilter::parse)",
              "std HashSet / HashMap (vstd's model; String and &str keys compare by content), Vec iteration order",
              "R5/R6 lifts in hostname_cosmetic_resources: iter().chain().collect() = concatenation, difference().cloned().collect() = set difference, into_iter().for_each(insert) = union, "
              "entry().and_modify(|=).or_insert() = OR-merge under a content-equal key, HashMap::remove(&str) = removal of the content-equal key",
@@ -222,8 +225,10 @@ PROPS["C16"] = dict(
     assumptions=["the domain handed in is a suffix of the hostname (computed by url_parser)"],
     level_text="Verus proves, for all strings, that the lookup hashes of a page host are exactly the host itself and every parent domain down to the registrable domain, and the entity forms with the public suffix removed plus the public suffix itself; "
                "and, for every rule database and host, that hostname_cosmetic_resources returns exactly: hide selectors filed under some lookup hash minus those unhidden under any lookup hash (plus the unscoped misc generic selectors minus the unhidden ones unless generichide), "
-               "procedural/action filters minus their exceptions, every unhidden selector as exceptions, and the scriptlet injections requested under some lookup hash minus identical exceptions (none under a blanket exception)",
-    level_note="which bin a rule is stored in (store_rule) and class/id lookup are not under contract",
+               "procedural/action filters minus their exceptions, every unhidden selector as exceptions, and the scriptlet injections requested under some lookup hash minus identical exceptions (none under a blanket exception); "
+               "that store_rule files a rule under every hostname and entity hash in the bin its kind names (the exception bin for `#@#` rules) and under every negated location in the opposite bin, and nothing else; "
+               "that add_filter sends unscoped rules to the generic stores, scoped rules to the scoped database, and a rule with only negated locations to both (as its hidden generic rule)",
+    level_note="parsing of the location list and the generichide lookup are not under contract",
     design_ref="DESIGN.md section 4, C16",
 )
 
